@@ -1,5 +1,46 @@
 import Anything.Model.Cli
-import Anything.Spec.Words
+import Anything.Props.C12
+import Anything.Lemmas.EvalSat
+import Anything.Lemmas.EvalSpans
+import Anything.Lemmas.EvalRound
+
 namespace Anything.Props.C11
-theorem C11_placeholder : True := trivial
+open Anything Anything.Eval
+
+/-- **C11 (parsing never fails).** -/
+theorem C11_parse_total (src : List Char) : ∃ forest, Grammar.parseRoot src = .ok forest :=
+  C12.C12_parse_total (Lexer.lex src)
+
+/-- **C11 (the rounding assertion is unreachable).** -/
+theorem C11_round_no_assert (cfg : Cfg) (s e : Nat) (args : List Numeric) (d : List Desc)
+    (site : String) : (builtinRound cfg s e args d).1 ≠ .error (.panic site) := by
+  rcases builtinRound_cases cfg s e args d with ⟨k, h⟩ | ⟨v, h, -⟩ <;> rw [h] <;> intro hh <;> cases hh
+
+def NotFuel : EvalErr → Prop
+  | .panic site => site ≠ "fuel"
+  | _ => True
+
+theorem ctx_fuel (cfg : Cfg) : Ctx cfg NotFuel (fun _ => True) (fun _ => True) (fun _ => True) where
+  kids := fun _ _ _ _ => trivial
+  perr := fun _ _ _ => trivial
+  unsup := fun _ => trivial
+  unil := trivial
+  upow := fun _ _ _ => trivial
+  kparse := fun _ _ _ _ _ => trivial
+  uupd := fun _ _ _ _ _ _ _ _ => trivial
+  udb := fun _ _ _ => trivial
+  umul := by
+    intro x y div l r _ _
+    split
+    · trivial
+    · trivial
+    · show _ ≠ _
+      decide
+  round := fun a args _ _ => sat_round cfg _ _ args (fun _ => trivial) (fun _ _ => trivial)
+
+theorem C11_no_fuel_panic (cfg : Cfg) (fuel : Nat) (a : At) (d : List Desc)
+    (h : 2 * Eval.size a.t + 2 ≤ fuel) : (eval cfg fuel a d).1 ≠ .error (.panic "fuel") := by
+  intro hh
+  exact (sat_eval (ctx_fuel cfg) fuel a trivial (by omega) d).1 _ hh rfl
+
 end Anything.Props.C11
